@@ -255,6 +255,27 @@ func c10MapOf(kvs [][2]string) map[string]string {
 
 // ---------- predictions ----------
 
+// c10Mode: which of the listed defects the prediction emulates (all false = what the property demands).
+type c10Mode struct {
+	ImgRegex     bool // images entry name used as an unquoted regular expression
+	ImgTwice     bool // the entry is applied a second time to the images at the default field-spec paths
+	ListKeyRegex bool // [k=v] in a replacement TARGET path selects entries whose k contains a regexp match of v
+}
+
+func (m c10Mode) class() string {
+	parts := []string{}
+	if m.ImgRegex {
+		parts = append(parts, "image-name-unquoted-regex")
+	}
+	if m.ImgTwice {
+		parts = append(parts, "image-tagsuffix-applied-twice")
+	}
+	if m.ListKeyRegex {
+		parts = append(parts, "replacement-listkey-unanchored-regex")
+	}
+	return "C10/" + strings.Join(parts, "+")
+}
+
 type c10Pred struct {
 	objs    []c10Obj // expected objects, index-aligned with t.Res
 	err     bool     // the build is expected to fail
@@ -340,7 +361,16 @@ func c10VisitImages(v interface{}, f func(m map[string]interface{})) {
 	}
 }
 
-func (t c10Tree) predictImages(p *c10Pred) {
+func c10ImgMatch(mode c10Mode, entry, s string) bool {
+	if mode.ImgRegex {
+		re, err := regexp.Compile("^" + entry + "(:[a-zA-Z0-9_.{}-]*)?(@sha256:[a-zA-Z0-9_.{}-]*)?$")
+		return err == nil && re.MatchString(s)
+	}
+	name, _, _ := c10RefParts(s)
+	return name == entry
+}
+
+func (t c10Tree) predictImages(p *c10Pred, mode c10Mode) {
 	for _, im := range t.Images {
 		for i, o := range p.objs {
 			if t.Res[i].Kind == "CustomResourceDefinition" {
@@ -348,11 +378,25 @@ func (t c10Tree) predictImages(p *c10Pred) {
 			}
 			c10VisitImages(o, func(m map[string]interface{}) {
 				s := m["image"].(string)
-				name, _, _ := c10RefParts(s)
-				if name == im.Name {
+				if c10ImgMatch(mode, im.Name, s) {
 					m["image"] = c10Compose(im, s)
 				}
 			})
+			if mode.ImgTwice {
+				for _, path := range [][]string{{"spec"}, {"spec", "template", "spec"}} {
+					ps, _ := c10Get(o, path...).(map[string]interface{})
+					for _, key := range []string{"containers", "initContainers"} {
+						l, _ := ps[key].([]interface{})
+						for _, e := range l {
+							if m, ok := e.(map[string]interface{}); ok {
+								if s, ok := m["image"].(string); ok && c10ImgMatch(mode, im.Name, s) {
+									m["image"] = c10Compose(im, s)
+								}
+							}
+						}
+					}
+				}
+			}
 		}
 	}
 }
@@ -418,7 +462,7 @@ func (s c10Slot) set(v interface{}) {
 
 // c10Resolve returns the slots, or ok=false when the path does not exist (and is not created), or
 // unknown=true for shapes the oracle does not cover.
-func c10Resolve(root c10Obj, parts []string, create bool) (slots []c10Slot, ok bool, unknown bool) {
+func c10Resolve(root c10Obj, parts []string, create bool, regexKeys bool) (slots []c10Slot, ok bool, unknown bool) {
 	type frame struct{ slot c10Slot }
 	cur := []c10Slot{{m: map[string]interface{}{"": root}, key: ""}}
 	for pi, part := range parts {
@@ -437,7 +481,19 @@ func c10Resolve(root c10Obj, parts []string, create bool) (slots []c10Slot, ok b
 				}
 				n := 0
 				for i, e := range l {
-					if m, ok := e.(map[string]interface{}); ok && fmt.Sprint(m[kv[0]]) == kv[1] && m[kv[0]] != nil {
+					m, ok := e.(map[string]interface{})
+					if !ok || m[kv[0]] == nil {
+						continue
+					}
+					hit := fmt.Sprint(m[kv[0]]) == kv[1]
+					if regexKeys {
+						re, err := regexp.Compile(kv[1])
+						if err != nil {
+							return nil, false, true
+						}
+						hit = re.MatchString(fmt.Sprint(m[kv[0]]))
+					}
+					if hit {
 						next = append(next, c10Slot{l: l, idx: i})
 						n++
 					}
@@ -528,7 +584,7 @@ func c10Text(v interface{}) (string, bool) {
 	return "", false
 }
 
-func (t c10Tree) predictRepls(p *c10Pred) {
+func (t c10Tree) predictRepls(p *c10Pred, mode c10Mode) {
 	for _, rp := range t.Repls {
 		if rp.Source == nil || rp.SourceValue != nil || rp.NilTargets {
 			p.unknown = true
@@ -557,7 +613,7 @@ func (t c10Tree) predictRepls(p *c10Pred) {
 			return
 		}
 		// the source side selects a list entry by equality and takes the first one
-		slots, found, unk := c10Resolve(src, parts, false)
+		slots, found, unk := c10Resolve(src, parts, false, false)
 		if unk {
 			p.unknown = true
 			return
@@ -639,7 +695,7 @@ func (t c10Tree) predictRepls(p *c10Pred) {
 						return
 					}
 					create := tg.Options != nil && tg.Options.Create
-					slots, found, unk := c10Resolve(o, parts, create)
+					slots, found, unk := c10Resolve(o, parts, create, mode.ListKeyRegex)
 					if unk {
 						p.unknown = true
 						return
@@ -732,7 +788,7 @@ func (t c10Tree) predictPatch(p *c10Pred) {
 	}
 }
 
-func (t c10Tree) predict() c10Pred {
+func (t c10Tree) predict(mode c10Mode) c10Pred {
 	p := c10Pred{}
 	objs, ok := t.inputObjs()
 	if !ok {
@@ -748,10 +804,10 @@ func (t c10Tree) predict() c10Pred {
 		t.predictReplicas(&p)
 	}
 	if !p.err && !p.unknown && len(t.Images) > 0 {
-		t.predictImages(&p)
+		t.predictImages(&p, mode)
 	}
 	if !p.err && !p.unknown && len(t.Repls) > 0 {
-		t.predictRepls(&p)
+		t.predictRepls(&p, mode)
 	}
 	return p
 }
@@ -817,150 +873,50 @@ func (t c10Tree) compare(p c10Pred, output string) ([]c10Diff, error) {
 	return diffs, nil
 }
 
-func c10HasMeta(s string) bool { return strings.ContainsAny(s, `\.+*?()|[]{}^$`) }
-
 // classify maps a failure to the class id of a listed finding when (and only when) it has exactly that shape.
-func (t c10Tree) classify(p c10Pred, cls string, diffs []c10Diff) string {
-	metaEntry := false
-	for _, im := range t.Images {
-		metaEntry = metaEntry || c10HasMeta(im.Name)
-	}
-	selfMiss, listSel := false, false
-	for _, rp := range t.Repls {
-		for _, tg := range rp.Targets {
-			for _, fp := range tg.FieldPaths {
-				parts, _ := c10SplitPath(fp)
-				for _, part := range parts {
-					if strings.HasPrefix(part, "[") && strings.Contains(part, "=") {
-						listSel = true
-						v := strings.SplitN(part[1:len(part)-1], "=", 2)[1]
-						if re, err := regexp.Compile(v); err == nil && !re.MatchString(v) && tg.Options != nil && tg.Options.Create {
-							selfMiss = true
-						}
-					}
-				}
-			}
-		}
-	}
-	switch {
-	case cls == ClsPanic && len(t.Images) > 0 && func() bool {
+// Panics / non-returns are classified by the input shape; a wrong result by the emulated defect
+// (or combination) whose prediction reproduces the observed output exactly.
+func (t c10Tree) classify(cls string, out string) string {
+	switch cls {
+	case ClsPanic:
 		for _, im := range t.Images {
 			if _, err := regexp.Compile(im.Name); err != nil {
-				return true
+				return "C10/image-name-regex-compile-panic"
 			}
 		}
-		return false
-	}():
-		return "C10/image-name-regex-compile-panic"
-	case cls == ClsDiverge && selfMiss:
-		return "C10/replacement-create-nonselfmatching-selector-hangs"
-	case cls == ClsOk && len(diffs) > 0:
-		allImage, allSuffixTwice, allMetaName := true, true, true
-		for _, d := range diffs {
-			if !strings.HasSuffix(d.Field, "/image") {
-				allImage = false
-			}
+		return "C10/build-panics"
+	case ClsDiverge:
+		if c10ExpectHang(c10Case{Kind: "repl", Repls: t.Repls}) {
+			return "C10/replacement-create-nonselfmatching-selector-hangs"
 		}
-		if allImage && len(t.Images) > 0 {
-			// (a) tagSuffix applied twice: got == want with the suffix repeated, for an entry with a tagSuffix
-			for _, d := range diffs {
-				ok := false
-				for _, im := range t.Images {
-					if im.TagSuffix != "" && im.NewTag == "" && im.Digest == "" && strings.Replace(d.Got, im.TagSuffix+im.TagSuffix, im.TagSuffix, 1) == d.Want &&
-						strings.Contains(d.Got, im.TagSuffix+im.TagSuffix) {
-						ok = true
-					}
-				}
-				allSuffixTwice = allSuffixTwice && ok
-			}
-			if allSuffixTwice {
-				return "C10/image-tagsuffix-applied-twice"
-			}
-			// (b) entry name with regexp metacharacters used as an unquoted pattern
-			allMetaName = metaEntry
-			if allMetaName {
-				return "C10/image-name-unquoted-regex"
-			}
+		return "C10/build-does-not-return"
+	}
+	modes := []c10Mode{{ImgRegex: true}, {ImgTwice: true}, {ImgRegex: true, ImgTwice: true}, {ListKeyRegex: true}}
+	for _, m := range modes {
+		if (m.ImgRegex || m.ImgTwice) && len(t.Images) == 0 {
+			continue
 		}
-		if len(t.Repls) > 0 && listSel {
-			// over-selection of list entries whose key merely CONTAINS a match of the selector value
-			only := true
-			for _, d := range diffs {
-				if d.Want == "<absent>" || d.Got == "<absent>" {
-					only = false
-				}
+		if m.ListKeyRegex && len(t.Repls) == 0 {
+			continue
+		}
+		p := t.predict(m)
+		if p.unknown {
+			continue
+		}
+		if cls == ClsErr {
+			if p.err {
+				return m.class()
 			}
-			if only && t.replOverSelection(diffs) {
-				return "C10/replacement-listkey-unanchored-regex"
-			}
+			continue
+		}
+		if p.err {
+			continue
+		}
+		if d, err := t.compare(p, out); err == nil && len(d) == 0 {
+			return m.class()
 		}
 	}
 	return "C10/modified-set-differs"
-}
-
-// every differing field lies in a list entry whose selector field differs from the selector value
-// but is matched by it as an (unanchored) regular expression, and the value observed there is the
-// value the replacement writes.
-func (t c10Tree) replOverSelection(diffs []c10Diff) bool {
-	objs, ok := t.inputObjs()
-	if !ok {
-		return false
-	}
-	byKey := map[string]c10Obj{}
-	for _, o := range objs {
-		byKey[c10Key(o)] = o
-	}
-	for _, d := range diffs {
-		o, ok := byKey[d.Res]
-		if !ok {
-			return false
-		}
-		explained := false
-		for _, rp := range t.Repls {
-			for _, tg := range rp.Targets {
-				for _, fp := range tg.FieldPaths {
-					parts, _ := c10SplitPath(fp)
-					// walk to the list, find the element index of the differing field
-					var cur interface{} = o
-					prefix := ""
-					for _, part := range parts {
-						if strings.HasPrefix(part, "[") && strings.Contains(part, "=") {
-							kv := strings.SplitN(part[1:len(part)-1], "=", 2)
-							l, isList := cur.([]interface{})
-							if !isList {
-								break
-							}
-							re, err := regexp.Compile(kv[1])
-							if err != nil {
-								break
-							}
-							for i, e := range l {
-								m, isMap := e.(map[string]interface{})
-								if !isMap {
-									continue
-								}
-								keyText := fmt.Sprint(m[kv[0]])
-								if strings.HasPrefix(d.Field, prefix+"/"+strconv.Itoa(i)+"/") && keyText != kv[1] && re.MatchString(keyText) {
-									explained = true
-								}
-							}
-							break
-						}
-						m, isMap := cur.(map[string]interface{})
-						if !isMap {
-							break
-						}
-						cur = m[part]
-						prefix += "/" + part
-					}
-				}
-			}
-		}
-		if !explained {
-			return false
-		}
-	}
-	return true
 }
 
 // ---------- generation ----------
@@ -978,7 +934,7 @@ func c10GenOracleRes(r *Rng) c10Res {
 		res.Labels = append(res.Labels, [2]string{"tier", pickN(r, c10LabelVals)})
 	}
 	if r.Chance(30) {
-		res.Annos = append(res.Annos, [2]string{"note", pickN(r, []string{"a:b:c", "n", "x/y/z"})})
+		res.Annos = append(res.Annos, [2]string{"note", pickN(r, []string{"a:b:c", "nn", "x/y/z"})})
 	}
 	if res.contPath() != "none" {
 		used := map[string]bool{}
@@ -1120,7 +1076,7 @@ func c10GenTree(r *Rng) c10Tree {
 func c10TreeHangProne(t c10Tree) bool { return c10ReplHangProne(t.Repls) }
 
 func c10CheckTree(run *Run, t c10Tree, out string, cls string, msg string) (violated bool, detail string) {
-	p := t.predict()
+	p := t.predict(c10Mode{})
 	kind := "patch"
 	switch {
 	case len(t.Images) > 0:
@@ -1152,7 +1108,7 @@ func c10CheckTree(run *Run, t c10Tree, out string, cls string, msg string) (viol
 	}
 	switch cls {
 	case ClsPanic, ClsDiverge:
-		class := t.classify(p, cls, nil)
+		class := t.classify(cls, out)
 		d := fmt.Sprintf("build %s (%s)", map[string]string{ClsPanic: "panicked", ClsDiverge: "did not return"}[cls], msg)
 		report("build_terminates_without_panic", class, d)
 		if run != nil {
@@ -1164,14 +1120,20 @@ func c10CheckTree(run *Run, t c10Tree, out string, cls string, msg string) (viol
 			run.AddEval(string(fp), false)
 		}
 		if !p.err {
-			class := "C10/unexpected-build-error"
+			class := t.classify(cls, out)
+			if class == "C10/modified-set-differs" {
+				class = "C10/unexpected-build-error"
+			}
 			report("modified_set_exact", class, "build failed although the directive selects something: "+msg)
 			return true, class + ": " + msg
 		}
 		return false, "error as predicted: " + msg
 	}
 	if p.err {
-		class := "C10/missing-build-error"
+		class := t.classify(cls, out)
+		if class == "C10/modified-set-differs" {
+			class = "C10/missing-build-error"
+		}
 		report("modified_set_exact", class, "build succeeded although the directive selects nothing / an impossible target")
 		if run != nil {
 			run.AddEval(string(fp), false)
@@ -1201,7 +1163,7 @@ func c10CheckTree(run *Run, t c10Tree, out string, cls string, msg string) (viol
 	if len(diffs) == 0 {
 		return false, "modified set as predicted"
 	}
-	class := t.classify(p, cls, diffs)
+	class := t.classify(cls, out)
 	parts := []string{}
 	for i, d := range diffs {
 		if i >= 6 {
@@ -1258,7 +1220,7 @@ func c10RunOracle(run *Run, rng *Rng, tier string) error {
 			jl = append(jl, j)
 		}
 	}
-	if err := c10RunJobs(jl, 8, 6*time.Second, 8*time.Second); err != nil {
+	if err := c10RunJobs(jl, 8, 4*time.Second, 5*time.Second); err != nil {
 		return err
 	}
 	for i, t := range trees {
